@@ -19,7 +19,7 @@
    changes, all other elements and their order stay"). *)
 From Coq Require Import List ZArith Bool Arith Lia.
 From SC Require Import Base.Res Base.PyList Inst.Heap Inst.ClassTable Inst.Model Inst.Canon Inst.Abs
-  Inst.SpecHelpers Inst.ElemProofs Inst.RefineProofs Inst.CopyProofs Inst.ElemRefine Inst.ElemRefine2 Inst.ElemRefine3 Inst.ElemRefine4 Inst.ElemRefine5 Inst.ElemRefine6 Inst.ElemRefineGuard.
+  Inst.SpecHelpers Inst.ElemProofs Inst.RefineProofs Inst.CopyProofs Inst.ElemRefine Inst.ElemRefine2 Inst.ElemRefine3 Inst.ElemRefine4 Inst.ElemRefine5 Inst.ElemRefine6 Inst.ElemRefine7 Inst.ElemRefineGuard.
 Import ListNotations.
 Open Scope nat_scope.
 
@@ -563,6 +563,28 @@ Proof.
   - intros voi Hv. now apply without_item_set_copy_guarded.
 Qed.
 
+(* the copy-on-write flag for update_<item> / transform_<item> on a list attribute of proper
+   scalars (Inst/ElemRefine7.v): same arguments and side conditions as the in-place theorems,
+   same conclusion as above (fresh result, old heap untouched, abstraction = spec_helper,
+   error classes); the user function runs on the protected copy *)
+Theorem C06_list_change_item_copy_refine_guarded_partial : forall ct h0 s l a,
+  copy_guard ct s l a KList = true -> proper_elems s l a = true ->
+  (forall voi fo bi, fail_at s = None -> nonref voi = true -> is_missing voi = false ->
+     match fo with Some f => pool_fn f = true | None => True end ->
+     by_value_ok ct s l a voi bi = true ->
+     copy_refines_spec ct h0 s l (HTransformItem a) (mkh [voi] false true VMissing false bi None [] fo)
+                       (STransformItem a) (mkah [abs0 voi] false true AMissing false bi None [] fo)) /\
+  (forall voi v bi, plain_items ct s l a = true ->
+     nonref voi = true -> is_missing voi = false -> nonref v = true ->
+     vscalar v || by_value_ok ct s l a voi bi = true ->
+     copy_refines_spec ct h0 s l (HUpdateItem a) (mkh [voi; v] false true VMissing false bi None [] None)
+                       (SUpdateItem a) (mkah [abs0 voi; abs0 v] false true AMissing false bi None [] None)).
+Proof.
+  intros ct h0 s l a G Pe. split.
+  - intros voi fo bi Hfa Hv Hm Hfo Hbv. now apply transform_item_list_copy_guarded.
+  - intros voi v bi P Hv Hm Hnv Hbv. now apply update_item_list_copy_guarded.
+Qed.
+
 (* non-vacuity of copy_guard: the receiver of C06_guard_examples with its class declared
    FROZEN.  The copy-on-write calls return a new instance (cell 5) whose attribute holds the
    edited container, cells 0..3 are as before; the in-place call is refused. *)
@@ -589,6 +611,13 @@ Example C06_copy_guard_examples :
                           absv (heap s') (VRef r) =
                           AInst 0 [(1, AList [AInt 1; AInt 0; AInt 1; AInt 0]); (2, ADict [(AStr 0, AInt 0); (AStr 7, AInt 1)]);
                                    (3, ASet [AInt 0; AInt 1; AInt 2])]
+   | _ => False end) /\
+  proper_elems ex_state 0 1 = true /\ by_value_ok ex_ct_frozen ex_state 0 1 (VInt (-1)) (Some true) = true /\
+  (match run_helper ex_ct_frozen 0 (HTransformItem 1) (mkh [VInt (-1)] false true VMissing false (Some true) None [] (Some (FAddInt 7))) ex_state with
+   | (Ok (VRef r), s') => r = 5 /\ old s' = heap ex_state /\
+                          absv (heap s') (VRef r) =
+                          AInst 0 [(1, AList [AInt 1; AInt 0; AInt 1; AInt 7]); (2, ADict [(AStr 0, AInt 0); (AStr 7, AInt 1)]);
+                                   (3, ASet [AInt 0; AInt 2])]
    | _ => False end) /\
   fst (run_helper ex_ct_frozen 0 (HWithoutItem 2) (mkh [VStr 9] false true VMissing false None None [] None) ex_state)
     = Err KeyErr /\
@@ -651,6 +680,7 @@ Print Assumptions C06_set_without_item_refines_partial.
 Print Assumptions C06_elem_helpers_refine_guarded_partial.
 Print Assumptions C06_guard_examples.
 Print Assumptions C06_elem_helpers_copy_refine_guarded_partial.
+Print Assumptions C06_list_change_item_copy_refine_guarded_partial.
 Print Assumptions C06_copy_guard_examples.
 Print Assumptions C06_by_value_transforms_argument_refuted.
 Print Assumptions C06_examples.
